@@ -265,7 +265,7 @@ def stack_instance(fname, D, F, lead=()):
                     crosscheck=False, timeout=20.0, max_paths=64, native_n=3, check_feasible=False)
 
 
-def phase_instance(lead, F, D):
+def phase_instance(lead, F, D, prove=None):
     from pb_bss.extraction import beamformer as bf
     lead = tuple(lead)
 
@@ -282,6 +282,40 @@ def phase_instance(lead, F, D):
         if shape_of(out) != lead + (F, D):
             return
         g, w = cells(out), cells(inp['w'])
+        if sp.symbolic and D >= 2 and F >= 2:
+            # ghost intermediates, recomputed with the code's own NumPy calls (purified angles / roots are memoised per argument):
+            # S_f = w_f^H-like inner product of neighbouring bins, U_f = exp(i angle S_f), P_f = prod_{j <= f} U_j; lemmas are cut in
+            W_ = inp['w']
+            S_arr = np.sum(np.conj(W_[..., 1:, :]) * W_[..., :-1, :], axis=-1, keepdims=True)
+            TH_arr = np.angle(S_arr)
+            TH_ = cells(TH_arr)
+            U_arr = np.exp(1j * TH_arr)
+            P_arr = np.cumprod(U_arr, axis=-2)
+            S_, U_, P_ = cells(S_arr), cells(U_arr), cells(P_arr)
+            for li in np.ndindex(*lead):
+                for f in range(1, F):
+                    u, s_, pf = U_[li + (f - 1, 0)], S_[li + (f - 1, 0)], P_[li + (f - 1, 0)]
+                    yield 'lemma:unit-phasor[%s,%d]' % (li, f), sp.eq(sp.abs2(u), 1.0)
+                    # modulus r and unit vector (c, s) of the purified angle:  c r = Re S, s r = Im S, c^2 + s^2 = 1, r >= 0
+                    th = TH_[li + (f - 1, 0)]
+                    cv, sv, rt = S.ctx().angles[S.num(th).term().args[0]]
+                    cR, sR, rR = S.R(cv), S.R(sv), S.R(rt)
+                    yield 'lemma:angle-decomposition[%s,%d]' % (li, f), sp.and_(sp.eq(cR * rR, sp.re(s_)), sp.eq(sR * rR, sp.im(s_)), sp.ge(rR, 0.0),
+                                                                               sp.eq(sp.re(u), cR), sp.eq(sp.im(u), sR))
+                    # products of the decomposition with c and s (one multiplication each), then the rotation is linear in them
+                    P_re, Q_im = sp.re(s_), sp.im(s_)
+                    yield 'lemma:decomposition-times-c[%s,%d]' % (li, f), sp.and_(sp.eq(cR * P_re, cR * cR * rR), sp.eq(cR * Q_im, cR * sR * rR))
+                    yield 'lemma:decomposition-times-s[%s,%d]' % (li, f), sp.and_(sp.eq(sR * P_re, sR * cR * rR), sp.eq(sR * Q_im, sR * sR * rR))
+                    yield 'lemma:unit-times-r[%s,%d]' % (li, f), sp.eq(cR * cR * rR + sR * sR * rR, rR)
+                    al = sp.conj(u) * s_
+                    yield 'lemma:phasor-rotates-the-inner-product-onto-the-non-negative-reals[%s,%d]' % (li, f), sp.and_(sp.eq(sp.im(al), 0.0), sp.eq(sp.re(al), rR))
+                    yield 'lemma:cumulative-phasor-is-unit[%s,%d]' % (li, f), sp.eq(sp.abs2(pf), 1.0)
+                    for d in range(D):
+                        yield 'lemma:output-is-input-times-cumulative-phasor[%s,%d,%d]' % (li, f, d), sp.eq(g[li + (f, d)], w[li + (f, d)] * pf)
+                    prev = P_[li + (f - 2, 0)] if f >= 2 else 1.0
+                    yield 'lemma:cumulative-phasor-step[%s,%d]' % (li, f), sp.eq(sp.conj(pf) * prev, sp.conj(u))
+                    ip = sp.sum(sp.conj(g[li + (f, d)]) * g[li + (f - 1, d)] for d in range(D))
+                    yield 'lemma:aligned-inner-product-factorises[%s,%d]' % (li, f), sp.eq(ip, sp.conj(pf) * prev * s_)
         for li in np.ndindex(*lead):
             for d in range(D):
                 yield 'first-bin-untouched[%s,%d]' % (li, d), sp.eq(g[li + (0, d)], w[li + (0, d)])
@@ -294,9 +328,9 @@ def phase_instance(lead, F, D):
 
     return Instance('C13', BF + 'phase_correction', 'lead%s-F%dD%d' % ('x'.join(map(str, lead)) or '0', F, D), make, call, ensures,
                     timeout=40.0, rtol=1e-6, atol=1e-9,
-                    # D >= 2: the alignment identity modulo the trigonometric definitions is undecided in the budget
-                    # (CAD over all vector entries): evaluated natively only; D = 1 is discharged
-                    mode='proof' if D == 1 else 'bounded', bounded_n=60)
+                    # D >= 2 is discharged through the chain of cut lemmas about the ghost phasors (angle decomposition, its
+                    # products with c and s, cumulative phasor); the large stacked shape only in the thorough tier (30 s obligations)
+                    mode='proof' if (D == 1 or prove or (prove is None and F <= 3 and D <= 2)) else 'bounded', bounded_n=60)
 
 
 def stable_solve_instance(n, D):
@@ -456,8 +490,9 @@ def instances(tier):
     out.append(phase_instance((), 3, 1))
     out.append(phase_instance((2,), 3, 1))
     out.append(phase_instance((2, 2), 3, 1))
+    out.append(phase_instance((), 2, 2))
     out.append(phase_instance((), 3, 2))
-    out.append(phase_instance((3,), 4, 3))
+    out.append(phase_instance((3,), 4, 3, prove=(tier == 'thorough')))
     out.append(stable_solve_instance(2, 1))
     out.append(stable_solve_instance(2, 2))
     out.append(stable_solve_bounded_instance())
